@@ -97,6 +97,10 @@ def cases(tier, seed):
         # one 2-D-space-plus-time case for every operator even in the quick tier (component / axis slips need >= 2 spatial axes)
         for tg, mm in (("laplacian", 1), ("divergence", 2), ("vector_laplacian", 2)):
             out.append(dict(target=tg, D=3, time=True, r=1, m=mm, B=2))
+    # batches with fewer points than separated axes (a single collocation point per axis)
+    for tg, mm, DD, tm in (("laplacian", 1, 2, False), ("divergence", 2, 2, False), ("divergence", 2, 3, True), ("divergence", 3, 3, False),
+                           ("vector_laplacian", 2, 3, False), ("mass", 2, 2, False), ("advection", 2, 2, False)):
+        out.append(dict(target=tg, D=DD, time=tm, r=2, m=mm, B=1))
     for time in (False, True):
         out.append(dict(target="advection", D=3 if time else 2, time=time, r=2, m=2, B=Bd["B"]))
     out.append(dict(target="burgers", D=2, time=True, r=2, m=1, B=Bd["B"]))
